@@ -4,10 +4,13 @@
 //! op lines (decimal integers, booleans 0/1; node ids are ranks 1..NK of the pool keys in `NodeId` order):
 //!   reset
 //!   ca <scid> <n1> <n2> <sameBtc> <chainOk> <verify> <sN1> <sN2> <sB1> <sB2> <utxo: n|u|v<sats>> <now>
+//!        (sX = 0: that signature does not verify against the key of its slot; HOW it is forged is a function of the
+//!         line: Ctx::forgery_style(scid, n1, n2, sameBtc), see build_ca)
 //!   cp <scid> <cap|-> <recv> <n1> <n2>                 add_channel_from_partial_announcement
 //!   cu <scid> <dir> <disabled> <ts> <cltv> <min> <max> <base> <prop> <chainOk> <dontFwd> <verify> <signer>
 //!   na <node> <ts> <payload> <verify> <sigOk>
 //!   fc <scid> <now>   fn <id> <now>   pr <t>           permanent failures (handle_network_update), pruning
+//!   tc <scid> <now>   tn <id> <now>                    NON-permanent failures (handle_network_update): no-ops
 //!   dump / dumpp                                        canonical dump with / without tombstones
 //!   asynchronous UTXO lookups (phase F/G): `ca … a<fid> <now>` = the lookup answers UtxoResult::Async with a fresh
 //!   UtxoFuture <fid>; `rs <fid> <u|v<sats>>` = UtxoFuture::resolve; `pc <now>` = P2PGossipSync::
@@ -108,6 +111,9 @@ enum Op {
 	Na { node: u64, ts: u64, payload: u64, verify: bool, sig_ok: bool },
 	Fc { scid: u64 },
 	Fn { id: u64 },
+	/// NON-permanent payment failures through handle_network_update (must not touch the graph)
+	Tc { scid: u64 },
+	Tn { id: u64 },
 	Pr { t: u64 },
 	/// rapid-gossip-sync snapshot: nodes = detail bits per pool node (rank order), anns = (scid, cap, n1, n2), upds = (scid, flags, cltv, min, base, prop, max)
 	Rgs { latest: u64, now: Option<u64>, d: [u64; 5], nodes: Vec<u8>, anns: Vec<(u64, Option<u64>, u64, u64)>, upds: Vec<(u64, u8, [u64; 5])> },
@@ -131,6 +137,8 @@ impl Op {
 			Op::Na { node, ts, payload, verify, sig_ok } => format!("na {} {} {} {} {}", node, ts, payload, b(*verify), b(*sig_ok)),
 			Op::Fc { scid } => format!("fc {} {}", scid, t0),
 			Op::Fn { id } => format!("fn {} {}", id, t0),
+			Op::Tc { scid } => format!("tc {} {}", scid, t0),
+			Op::Tn { id } => format!("tn {} {}", id, t0),
 			Op::Pr { t } => format!("pr {}", t),
 			Op::Rs { fid, res } => format!("rs {} {}", fid, match res { Utxo::Value(v) => format!("v{}", v), _ => "u".to_string() }),
 			Op::Pc => format!("pc {}", t0),
@@ -138,7 +146,7 @@ impl Op {
 			Op::Rgs { .. } => unreachable!("rgs lines need the key parities: Ctx::rgs_line"),
 		}
 	}
-	fn kind(&self) -> &'static str { match self { Op::Ca { .. } => "ca", Op::Cp { .. } => "cp", Op::Cu { .. } => "cu", Op::Na { .. } => "na", Op::Fc { .. } => "fc", Op::Fn { .. } => "fn", Op::Pr { .. } => "pr", Op::Rgs { .. } => "rgs", Op::Rs { .. } => "rs", Op::Pc => "pc", Op::Tm => "tm" } }
+	fn kind(&self) -> &'static str { match self { Op::Ca { .. } => "ca", Op::Cp { .. } => "cp", Op::Cu { .. } => "cu", Op::Na { .. } => "na", Op::Fc { .. } => "fc", Op::Fn { .. } => "fn", Op::Tc { .. } => "tc", Op::Tn { .. } => "tn", Op::Pr { .. } => "pr", Op::Rgs { .. } => "rgs", Op::Rs { .. } => "rs", Op::Pc => "pc", Op::Tm => "tm" } }
 	fn is_msg(&self) -> bool { matches!(self, Op::Ca { .. } | Op::Cu { .. } | Op::Na { .. }) }
 }
 
@@ -197,12 +205,21 @@ impl Ctx {
 		let contents = UnsignedChannelAnnouncement { features: ChannelFeatures::empty(), chain_hash: Self::chain(chain_ok), short_channel_id: scid, node_id_1: self.id_of(n1), node_id_2: self.id_of(n2),
 			bitcoin_key_1: NodeId::from_pubkey(&bk1), bitcoin_key_2: NodeId::from_pubkey(&bk2), excess_data: vec![] };
 		let h = msg_hash(&contents);
-		// a wrong signature is a real signature by a key that is not the required one
-		let s = |ok: bool, sk: &SecretKey, wrong: &SecretKey| self.secp.sign_ecdsa(&h, if ok { sk } else { wrong });
+		// a wrong signature is a real signature that does not verify against the key of ITS slot. Three styles, a pure
+		// function of the op line (`Ctx::forgery_style`): 0 = made by a key that is none of the announced ones,
+		// 1 = made by the holder of the NEIGHBOUR key (node_signature_1 by node_id_2's key, node_signature_2 by
+		// node_id_1's, bitcoin_signature_1 by bitcoin_key_2's, bitcoin_signature_2 by bitcoin_key_1's: a library that
+		// pairs a signature with the wrong announced key accepts these), 2 = made by the RIGHT key over another
+		// message (the same contents with short_channel_id + 1: "re-signed" contents).
+		let style = Self::forgery_style(scid, n1, n2, same_btc);
+		let h_other = msg_hash(&UnsignedChannelAnnouncement { short_channel_id: scid.wrapping_add(1), ..contents.clone() });
+		let s = |ok: bool, sk: &SecretKey, wrong: &SecretKey, neighbour: &SecretKey| if ok { self.secp.sign_ecdsa(&h, sk) } else { match style { 1 => self.secp.sign_ecdsa(&h, neighbour), 2 => self.secp.sign_ecdsa(&h_other, sk), _ => self.secp.sign_ecdsa(&h, wrong) } };
 		let b2sk = if same_btc { &self.btc_sk[0] } else { &self.btc_sk[1] };
-		ChannelAnnouncement { node_signature_1: s(sigs[0], self.sk_of(n1), self.sk_of(n1 % NK as u64 + 1)), node_signature_2: s(sigs[1], self.sk_of(n2), &self.garbage_sk),
-			bitcoin_signature_1: s(sigs[2], &self.btc_sk[0], &self.btc_other), bitcoin_signature_2: s(sigs[3], b2sk, &self.btc_other), contents }
+		ChannelAnnouncement { node_signature_1: s(sigs[0], self.sk_of(n1), self.sk_of(n1 % NK as u64 + 1), self.sk_of(n2)), node_signature_2: s(sigs[1], self.sk_of(n2), &self.garbage_sk, self.sk_of(n1)),
+			bitcoin_signature_1: s(sigs[2], &self.btc_sk[0], &self.btc_other, &self.btc_sk[1]), bitcoin_signature_2: s(sigs[3], b2sk, &self.btc_other, &self.btc_sk[0]), contents }
 	}
+	/// how the signatures flagged 0 of a `ca` line are forged (see build_ca); style 1 needs distinct neighbours
+	fn forgery_style(scid: u64, n1: u64, n2: u64, same_btc: bool) -> u64 { if same_btc || (n1 as usize - 1) % NK == (n2 as usize - 1) % NK { 0 } else { (scid + n1 + n2) % 3 } }
 	fn build_cu(&self, op: &Op) -> ChannelUpdate {
 		if let Op::Cu { scid, dir, disabled, ts, cltv, min, max, base, prop, chain_ok, dont_fwd, signer, .. } = op {
 			let contents = UnsignedChannelUpdate { chain_hash: Self::chain(*chain_ok), short_channel_id: *scid, timestamp: *ts as u32, message_flags: 1 | ((*dont_fwd as u8) << 1), channel_flags: (*dir as u8) | ((*disabled as u8) << 1),
@@ -310,6 +327,8 @@ impl Ctx {
 			},
 			Op::Fc { scid } => { g.handle_network_update(&NetworkUpdate::ChannelFailure { short_channel_id: *scid, is_permanent: true }); "done".into() },
 			Op::Fn { id } => { g.handle_network_update(&NetworkUpdate::NodeFailure { node_id: self.node_pk[(*id as usize - 1) % NK], is_permanent: true }); "done".into() },
+			Op::Tc { scid } => { g.handle_network_update(&NetworkUpdate::ChannelFailure { short_channel_id: *scid, is_permanent: false }); "done".into() },
+			Op::Tn { id } => { g.handle_network_update(&NetworkUpdate::NodeFailure { node_id: self.node_pk[(*id as usize - 1) % NK], is_permanent: false }); "done".into() },
 			Op::Pr { t } => { g.remove_stale_channels_and_tracking_with_time(*t); "done".into() },
 			Op::Rs { .. } | Op::Pc | Op::Tm => unreachable!("async ops need an AsyncEnv"),
 			Op::Rgs { now, .. } => {
@@ -595,6 +614,8 @@ impl<'a> Runner<'a> {
 		if ans.starts_with("panic") { self.rec.oracle_fail(format!("panic in the library on `{}`: {} (graph before: {})", line, ans, before)); }
 		// (i) a wrongly signed message never changes the graph
 		if forged && before != after { self.rec.oracle_fail(format!("wrongly signed message changed the graph: `{}` => {}; before: {}; after: {}", line, ans, before, after)); }
+		// a NON-permanent payment failure never changes the graph (handle_network_update acts only `if is_permanent`)
+		if matches!(op, Op::Tc { .. } | Op::Tn { .. }) && before != after { self.rec.oracle_fail(format!("non-permanent payment failure changed the graph: `{}` => {}; before: {}; after: {}", line, ans, before, after)); }
 		// a rejected message never changes the graph
 		if op.is_msg() && ans.starts_with("err") && before != after { self.rec.oracle_fail(format!("rejected message changed the graph: `{}` => {}; before: {}; after: {}", line, ans, before, after)); }
 		// stored last_update never decreases, an equal timestamp never replaces
@@ -620,7 +641,7 @@ impl<'a> Runner<'a> {
 		let mut first = ans.split(' ').take(2).collect::<Vec<_>>().join(" ");
 		match op {
 			Op::Ca { scid, .. } if ans == "ok" && (before.contains(&format!(" {}:", scid)) && before.split(" | N ").next().unwrap().contains(&format!(" {}:", scid))) => first.push_str("-replaced"),
-			Op::Fc { .. } | Op::Fn { .. } | Op::Pr { .. } | Op::Rgs { .. } => first.push_str(if before != after { "-changed" } else { "-noop" }),
+			Op::Fc { .. } | Op::Fn { .. } | Op::Tc { .. } | Op::Tn { .. } | Op::Pr { .. } | Op::Rgs { .. } => first.push_str(if before != after { "-changed" } else { "-noop" }),
 			Op::Pc => { first = format!("done-{}events", ans.split(' ').count() - 1); first.push_str(if before != after { "-changed" } else { "-noop" }) },
 			_ => {}
 		}
@@ -686,6 +707,51 @@ fn main() {
 	let mut stats: HashMap<&'static str, u64> = HashMap::new();
 	let mut r = Runner { ctx: &ctx, rec: &mut rec, last_bad: vec![] };
 
+	// ---- phase S (runs FIRST: it is small, deterministic, and its failing inputs are the most readable): the signature matrix of channel_announcement. Every non-empty subset of the four signatures
+	// forged (15) x the three forgery styles (by an unrelated key / by the holder of the neighbour key / by the right
+	// key over another message) x the four verifying entry paths, each on an empty graph; then the untampered message.
+	// MODEL-INDEPENDENT oracle: a message with any forged signature is refused as an invalid signature and leaves
+	// the graph empty; the untampered one is accepted. (verify_channel_announcement, gossip.rs)
+	{
+		const SIG_NAMES: [&str; 4] = ["node_signature_1", "node_signature_2", "bitcoin_signature_1", "bitcoin_signature_2"];
+		const ENTRY: [&str; 4] = ["P2PGossipSync::handle_channel_announcement (no UtxoLookup)", "NetworkGraph::update_channel_from_announcement (no UtxoLookup)", "P2PGossipSync::handle_channel_announcement (synchronous UtxoLookup)", "P2PGossipSync::handle_channel_announcement (asynchronous UtxoLookup)"];
+		const STYLE: [&str; 3] = ["a key that is none of the announced ones", "the holder of the neighbour key of the same kind", "the right key over another message"];
+		let (mut n_forged, mut n_valid) = (0u64, 0u64);
+		for entry in 0..4usize {
+			for scid in 1..=3u64 {
+				let style = Ctx::forgery_style(scid, 1, 2, false) as usize;
+				for mask in 0..16u32 {
+					let sigs = [mask & 1 == 0, mask & 2 == 0, mask & 4 == 0, mask & 8 == 0];
+					let g = new_graph();
+					r.rec.directive("reset"); r.rec.directive("unordered");
+					let env = AsyncEnv::new(&g, false);
+					let utxo = match entry { 0 | 1 => Utxo::NoLookup, 2 => Utxo::Value(1000), _ => Utxo::Async(1) };
+					let op = Op::Ca { scid, n1: 1, n2: 2, same_btc: false, chain_ok: true, verify: true, sigs, utxo };
+					let ans = if entry == 0 { r.exec(&g, &op, "S:") } else { r.exec_in(&g, Some(&env), &op, "S:") };
+					if mask != 0 {
+						n_forged += 1;
+						let forged: Vec<&str> = (0..4).filter(|i| !sigs[*i]).map(|i| SIG_NAMES[i]).collect();
+						let empty = { let ro = g.read_only(); ro.channels().is_empty() && ro.nodes().is_empty() };
+						if !ans.starts_with("err BadSig") || !empty {
+							r.rec.oracle_fail(format!("channel_announcement whose {} {} made by {} was NOT refused as an invalid signature by {}: `{}` => {}; graph after: {}", forged.join(" + "), if forged.len() == 1 { "is" } else { "are" }, STYLE[style], ENTRY[entry], ctx.line(&op), ans, ctx.dump(&g, true)));
+						}
+					} else {
+						n_valid += 1;
+						if entry == 3 {
+							if !ans.starts_with("err CheckingAsync") { r.rec.oracle_fail(format!("untampered channel_announcement with an asynchronous lookup: `{}` => {}", ctx.line(&op), ans)); }
+							r.exec_in(&g, Some(&env), &Op::Rs { fid: 1, res: Utxo::Value(1000) }, "S:");
+							r.exec_in(&g, Some(&env), &Op::Pc, "S:");
+						} else if ans != "ok" { r.rec.oracle_fail(format!("untampered channel_announcement refused by {}: `{}` => {}", ENTRY[entry], ctx.line(&op), ans)); }
+						if g.read_only().channels().get(&scid).is_none() { r.rec.oracle_fail(format!("untampered channel_announcement did not enter the graph through {}: `{}` => {}", ENTRY[entry], ctx.line(&op), ans)); }
+					}
+					r.dump(&g, true);
+				}
+			}
+		}
+		stats.insert("signature_matrix_forged_channel_announcements", n_forged);
+		stats.insert("signature_matrix_untampered_channel_announcements", n_valid);
+	}
+
 	for set in 0..n_sets {
 		// ---------------- phase A: arbitrary interleavings (admissible or not) ----------------------
 		let g = new_graph();
@@ -707,8 +773,8 @@ fn main() {
 					if rng.chance(1, 2) { match &mut o { Op::Cu { base, cltv, .. } => { *base += 1; *cltv = 41; }, Op::Na { payload, .. } => { *payload ^= 1; }, Op::Ca { utxo, .. } => { *utxo = Utxo::Value(1234); }, _ => {} } }
 					o
 				},
-				83..=87 => Op::Fc { scid: 1 + rng.below(gen.scids) },
-				88..=90 => Op::Fn { id: 1 + rng.below(NK as u64) },
+				83..=87 => { let scid = 1 + rng.below(gen.scids); if rng.chance(1, 4) { Op::Tc { scid } } else { Op::Fc { scid } } },
+				88..=90 => { let id = 1 + rng.below(NK as u64); if rng.chance(1, 4) { Op::Tn { id } } else { Op::Fn { id } } },
 				91..=97 => Op::Pr { t: tm.prune_time(&mut rng, last_explicit_prune, wall_tombs) },
 				_ => gen.cu(&mut rng, &ctx, &g, &tm, None),
 			};
@@ -938,8 +1004,8 @@ fn main() {
 						Op::Rs { fid, res: if rng.chance(3, 10) { Utxo::UnknownTx } else { Utxo::Value(*rng.pick(&[1000u64, 5, 2_000_000])) } }
 					},
 					88..=95 => Op::Pc,
-					96 => Op::Fc { scid: 1 + rng.below(3) },
-					97 => Op::Fn { id: 1 + rng.below(NK as u64) },
+					96 => { let scid = 1 + rng.below(3); if rng.chance(1, 4) { Op::Tc { scid } } else { Op::Fc { scid } } },
+					97 => { let id = 1 + rng.below(NK as u64); if rng.chance(1, 4) { Op::Tn { id } } else { Op::Fn { id } } },
 					98 => Op::Tm,
 					_ => Op::Pc,
 				};
@@ -1096,8 +1162,8 @@ fn main() {
 					0..=24 => { let a = if !anns.is_empty() && rng.chance(2, 5) { rng.pick(&anns).clone() } else { gen_h.ca(&mut rng, true) }; anns.push(a.clone()); a },
 					25..=54 => gen_h.cu(&mut rng, &ctx, &g, &tm, None),
 					55..=66 => gen_h.na(&mut rng, &tm),
-					67..=81 => Op::Fc { scid: 1 + rng.below(gen_h.scids) },
-					82..=89 => Op::Fn { id: 1 + rng.below(NK as u64) },
+					67..=81 => { let scid = 1 + rng.below(gen_h.scids); if rng.chance(1, 4) { Op::Tc { scid } } else { Op::Fc { scid } } },
+					82..=89 => { let id = 1 + rng.below(NK as u64); if rng.chance(1, 4) { Op::Tn { id } } else { Op::Fn { id } } },
 					_ => Op::Pr { t: tm.prune_time(&mut rng, last_explicit_prune, wall_tombs) },
 				};
 				match &op { Op::Pr { t } if *t >= STALE && *t <= u32::MAX as u64 => last_explicit_prune = Some(*t), Op::Fc { .. } | Op::Fn { .. } => wall_tombs = true, _ => {} }
@@ -1112,7 +1178,7 @@ fn main() {
 	}
 	let elapsed = SystemTime::now().duration_since(UNIX_EPOCH).unwrap().as_secs() - ctx.t0;
 	if elapsed >= WINDOW - 600 { r.rec.oracle_fail(format!("harness ran {}s: wall-clock canonicalisation window exceeded (machinery, not the library)", elapsed)); }
-	rec.notes.insert("rule".into(), format!("per message set: phase A = random interleaving of signed/unsigned/forged/stale/duplicate/conflicting gossip with permanent failures and pruning at threshold times (differential + oracles: forged or rejected message leaves the graph unchanged, last_update monotone); phase B = {} random admissible orders of one message multiset with distinct timestamps (oracle: equal dumps and byte-identical canonical encodings) ; phase C = one random inadmissible order; phase A also applies generated version-2 rapid-gossip-sync snapshots through RapidGossipSync::update_network_graph_no_std (oracle: no stored update / node announcement replaced by older-or-equal data); phase E = snapshots applied twice (idempotence oracle), tombstone and incremental-order scenarios; write/read round trip after A and B; phase F = asynchronous UTXO lookups (scripted UtxoLookup answering UtxoResult::Async, futures resolved and check_resolved_futures run at scripted points, valid / wrongly signed / re-signed gossip in between; oracle after every op: every stored signed message verifies with secp256k1 against the announced keys); phase G = all-valid scripts delivered with asynchronous vs synchronous answers must give equal graphs; phase H = histories with a restart (write, read, continue on the graph read back) in the middle. distinct = distinct op-line texts", n_orders));
+	rec.notes.insert("rule".into(), format!("per message set: phase A = random interleaving of signed/unsigned/forged/stale/duplicate/conflicting gossip with permanent failures and pruning at threshold times (differential + oracles: forged or rejected message leaves the graph unchanged, last_update monotone); phase B = {} random admissible orders of one message multiset with distinct timestamps (oracle: equal dumps and byte-identical canonical encodings) ; phase C = one random inadmissible order; phase A also applies generated version-2 rapid-gossip-sync snapshots through RapidGossipSync::update_network_graph_no_std (oracle: no stored update / node announcement replaced by older-or-equal data); phase E = snapshots applied twice (idempotence oracle), tombstone and incremental-order scenarios; write/read round trip after A and B; phase F = asynchronous UTXO lookups (scripted UtxoLookup answering UtxoResult::Async, futures resolved and check_resolved_futures run at scripted points, valid / wrongly signed / re-signed gossip in between; oracle after every op: every stored signed message verifies with secp256k1 against the announced keys); phase G = all-valid scripts delivered with asynchronous vs synchronous answers must give equal graphs; phase H = histories with a restart (write, read, continue on the graph read back) in the middle. phase S = signature matrix of channel_announcement: every non-empty subset of the four signatures forged x 3 forgery styles (unrelated key / holder of the neighbour announced key / right key over another message) x 4 verifying entry paths on an empty graph (oracle: refused as invalid signature, graph stays empty; the untampered message is accepted). In every phase a signature flagged 0 on a `ca` line is forged in the style (scid+n1+n2) % 3 (0 when both bitcoin keys or both nodes coincide). distinct = distinct op-line texts", n_orders));
 	for (k, v) in stats.iter() { rec.notes.insert((*k).into(), v.to_string()); }
 	rec.notes.insert("not_exercised".into(), "production-only wall-clock freshness test of update_channel_internal (cfg not(_test_utils)); asynchronous UTXO lookups: dropped UtxoFutures (Weak::upgrade failure arms), a future shared by two lookups, UnknownChain / wrong-script answers, rapid-gossip-sync snapshots while a lookup is pending; rapid-gossip-sync: version-1 snapshots, node addresses / feature changes (not part of the dump), the forwards-compatibility additional-data paths of updates".into());
 	rec.notes.insert("node_channel_list_order".into(), "NodeInfo.channels is kept in arrival order by the library (and compared in that order by NodeInfo::eq / written in that order); the recorded dumps of phases A-E and H print it in that order and the model reproduces it (Model/GossipOrder.lean); the order-independence oracle and phases F/G compare it as a set".into());
